@@ -415,6 +415,64 @@ def numLoop (cfg : Cfg) (sql : Sql) : Nat → St → Bool → Nat → Bool → R
       else if p.ident then numIdentTail cfg sql st us
       else finishNumber cfg sql st us
 
+/-! ### `int(text, base)` for base 2 / 16 on ASCII text (decides HEX/BIT literals; non-ASCII text = `none`) -/
+
+def isAsciiSpace (c : Char) : Bool :=
+  c.toNat == 32 || (9 ≤ c.toNat && c.toNat ≤ 13) || (28 ≤ c.toNat && c.toNat ≤ 31)
+
+def isBaseDigit (base : Nat) (c : Char) : Bool :=
+  if base == 2 then c == '0' || c == '1' else isDigit c || ('a' ≤ c && c ≤ 'f') || ('A' ≤ c && c ≤ 'F')
+
+/-- digits with single underscores between them (prevUnderscore: the previous character was `_`) -/
+def digitRun (base : Nat) : List Char → Bool → Bool
+  | [], prevU => !prevU
+  | c :: r, prevU =>
+    if c == '_' then (if prevU then false else digitRun base r true)
+    else if isBaseDigit base c then digitRun base r false else false
+
+def stripSign (t : List Char) : List Char :=
+  match t with | '+' :: r => r | '-' :: r => r | _ => t
+
+def stripPrefix (base : Nat) (t : List Char) : List Char :=
+  match t with
+  | '0' :: p :: r =>
+    if (base == 16 && (p == 'x' || p == 'X')) || (base == 2 && (p == 'b' || p == 'B')) then
+      (match r with | '_' :: r' => r' | _ => r)
+    else t
+  | _ => t
+
+def pyIntBody (base : Nat) (t : List Char) : Bool :=
+  match stripPrefix base (stripSign t) with
+  | [] => false
+  | c :: r => isBaseDigit base c && digitRun base r false
+
+/-- does `int(s, base)` succeed?  (CPython: strip whitespace, optional sign, optional 0x/0b prefix, digits with single
+    underscores).  `none` for non-ASCII text (Unicode digits / spaces are not modelled). -/
+def pyIntOk (base : Nat) (s : List Char) : Option Bool :=
+  if s.any (fun c => c.toNat ≥ 128) then none
+  else some (pyIntBody base (((s.dropWhile isAsciiSpace).reverse.dropWhile isAsciiSpace).reverse))
+
+/-- `_extract_value`: while peek.strip() and peek not in single_tokens: _advance(alnum=True) -/
+def valueLoop (cfg : Cfg) (sql : Sql) : Nat → St → Res St
+  | 0, _ => .fuel
+  | f+1, st =>
+    match peek sql st with
+    | none => .ok st
+    | some p =>
+      if !p.space && !isSingle cfg p.c then (advanceAlnum sql st).bind fun s => valueLoop cfg sql f s
+      else .ok st
+
+/-- the token `_scan_bits` / `_scan_hex` add once the value is extracted -/
+def radixAdd (cfg : Cfg) (sql : Sql) (s : St) (base : Nat) (ty : String) : Res St :=
+  match pyIntOk base (slice sql s.start s.current) with
+  | none => .unsupported "int(value, base) on non-ASCII text"
+  | some true => add cfg sql s ty (some ((slice sql s.start s.current).drop 2))
+  | some false => add cfg sql s "IDENTIFIER" none
+
+/-- `_scan_bits` / `_scan_hex` -/
+def scanRadix (cfg : Cfg) (sql : Sql) (st : St) (base : Nat) (ty : String) : Res St :=
+  (advance sql st 1).bind fun s => (valueLoop cfg sql (sql.size + 1) s).bind fun s2 => radixAdd cfg sql s2 base ty
+
 def charIs (sql : Sql) (st : St) (c : Char) : Bool :=
   match char sql st with | some ch => ch.c == c | none => false
 
@@ -423,9 +481,9 @@ def peekUpperIs (sql : Sql) (st : St) (c : Char) : Bool :=
 
 def scanNumber (cfg : Cfg) (sql : Sql) (st : St) : Res St :=
   if charIs sql st '0' && peekUpperIs sql st 'B' then
-    (if cfg.hasBit then .unsupported "0b literal" else add cfg sql st "NUMBER" none)
+    (if cfg.hasBit then scanRadix cfg sql st 2 "BIT_STRING" else add cfg sql st "NUMBER" none)
   else if charIs sql st '0' && peekUpperIs sql st 'X' then
-    (if cfg.hasHex then .unsupported "0x literal" else add cfg sql st "NUMBER" none)
+    (if cfg.hasHex then scanRadix cfg sql st 16 "HEX_STRING" else add cfg sql st "NUMBER" none)
   else numLoop cfg sql (sql.size + 2) st false 0 false
 
 def varLoop (cfg : Cfg) (sql : Sql) : Nat → St → Res St
@@ -456,16 +514,22 @@ def allDigitsBase (base : Nat) (t : List Char) : Bool :=
 
 def baseOf (ty : String) : Nat := if ty == "HEX_STRING" then 16 else if ty == "BIT_STRING" then 2 else 0
 
+/-- `if base and text: int(text, base)` (failure = TokenError), then `_add(token_type, text)` -/
+def stringAdd (cfg : Cfg) (sql : Sql) (s : St) (ty : String) (text : List Char) : Res St :=
+  if baseOf ty != 0 && !text.isEmpty then
+    match pyIntOk (baseOf ty) text with
+    | none => .unsupported "int(text, base) on non-ASCII text"
+    | some true => add cfg sql s ty (some text)
+    | some false => .error s.current
+  else add cfg sql s ty (some text)
+
 /-- the body of `_scan_string` once the start delimiter `word` (closing delimiter endD, token type ty) is known -/
 def stringBody (cfg : Cfg) (sql : Sql) (st : St) (word : List Char) (endD : String) (ty : String) : Res St :=
   if ty == "HEREDOC_STRING" then .unsupported "heredoc"
   else
     (advance sql st word.length).bind fun s =>
       (extractString cfg sql s ⟨endD.toList, if ty == "BYTE_STRING" then cfg.byteEscapes else cfg.stringEscapes,
-                                ty == "RAW_STRING"⟩).bind fun r =>
-        if baseOf ty != 0 && !r.2.isEmpty && !allDigitsBase (baseOf ty) r.2 then
-          .unsupported "int(text, base) on a non-digit body"
-        else add cfg sql r.1 ty (some r.2)
+                                ty == "RAW_STRING"⟩).bind fun r => stringAdd cfg sql r.1 ty r.2
 
 /-- `_scan_string(word)`: `none` = not a string start -/
 def scanString (cfg : Cfg) (sql : Sql) (st : St) (word : List Char) : Option (Res St) :=
@@ -701,5 +765,64 @@ def highlightSql (s : List Char) (positions : List (Nat × Nat)) (ctx : Nat) : H
   let (parts, prevEnd) := hlLoop s sorted first startCtx
   let endCtx := if prevEnd < s.length then pySlice s prevEnd (prevEnd + ctx) else []
   ⟨parts ++ endCtx, startCtx, pySlice s first prevEnd, endCtx⟩
+
+
+/-! ### Parser.raise_error and Expression.update_positions -/
+
+/-- the statement text the parser holds (`self.sql`) for a tokenizer input -/
+def sqlText (sql : Sql) : List Char := strOf sql.toList
+
+
+/-- `token or self._curr or self._prev or Token.string("")` — a token is falsy iff it is the SENTINEL (`none` here) -/
+def chooseTok (token curr prev : Option Tok) : Tok :=
+  match token with
+  | some t => t
+  | none => match curr with
+    | some t => t
+    | none => match prev with
+      | some t => t
+      | none => ⟨"STRING", [], 1, 1, 0, 0⟩
+
+structure ErrInfo where
+  line : Nat
+  col : Nat
+  startCtx : List Char
+  highlight : List Char
+  endCtx : List Char
+  formatted : List Char
+deriving Repr, DecidableEq
+
+/-- what `Parser.raise_error(message, token)` records in `ParseError.errors[0]` (plus the formatted SQL of the message) -/
+def raiseError (sql : List Char) (token curr prev : Option Tok) (ctx : Nat) : ErrInfo :=
+  let t := chooseTok token curr prev
+  let h := highlightSql sql [(t.start, t.stop)] ctx
+  ⟨t.line, t.col, h.startCtx, h.highlight, h.endCtx, h.formatted⟩
+
+/-- the four POSITION_META_KEYS of `Expression.meta`: outer `none` = key absent, `some none` = key present with value None -/
+structure Meta where
+  line : Option (Option Nat) := none
+  col : Option (Option Nat) := none
+  start : Option (Option Nat) := none
+  stop : Option (Option Nat) := none
+deriving Repr, DecidableEq
+
+inductive PosSrc where
+  | token (t : Tok)                              -- update_positions(token)
+  | expr (other : Option Meta)                   -- update_positions(other_expr); none = other._meta is empty
+  | explicit (line col start stop : Option Nat)  -- update_positions(line=.., col=.., start=.., end=..)
+
+/-- `if k in other_meta: meta[k] = other_meta[k]` -/
+def copyKey (o m : Option (Option Nat)) : Option (Option Nat) := match o with | some v => some v | none => m
+
+/-- `Expression.update_positions` on the position keys -/
+def updatePositions (m : Meta) : PosSrc → Meta
+  | .token t => ⟨some (some t.line), some (some t.col), some (some t.start), some (some t.stop)⟩
+  | .expr none => m
+  | .expr (some o) => ⟨copyKey o.line m.line, copyKey o.col m.col, copyKey o.start m.start, copyKey o.stop m.stop⟩
+  | .explicit l c s e => ⟨some l, some c, some s, some e⟩
+
+/-- `Parser.expression(instance, token)`: `if token: instance.update_positions(token)` -/
+def expressionMeta (m : Meta) (token : Option Tok) : Meta :=
+  match token with | some t => updatePositions m (.token t) | none => m
 
 end SqlglotModel.Lex
